@@ -128,6 +128,9 @@ def record(chk, oc, case, stats, tag):
         stats["skipped:" + oc.skip.split(" for ")[0]] = stats.get("skipped:" + oc.skip.split(" for ")[0], 0) + 1
         return False
     chk.validated += 1
+    for x in oc.rk or ():
+        if x != "-":
+            stats.setdefault("result_dtype_kinds_seen", set()).add(x)
     for n in oc.notes:
         stats[n] = stats.get(n, 0) + 1
     for key, desc in oc.bad:
@@ -374,9 +377,16 @@ def qty_eq_sweep(chk, qeq, rnd, stats, reps):
                         continue
                     n += 1
                     chk.validated += 1
+                    case = {"kind": "qty_eq", "heap0": list(heap0), "step": qeq[heap0], "op": op,
+                            "seed": seed, "back": back}
                     for key, desc in bad:
-                        chk.violation(key, desc, {"kind": "qty_eq", "heap0": list(heap0), "step": qeq[heap0], "op": op,
-                                                  "seed": seed, "back": back})
+                        chk.violation(key, desc, case)
+                    if not bad:
+                        # behaves exactly as modelled (Ufunc!QtyEqStep): values right, result NOT wrapped as a
+                        # signal -- a literal deviation from C17 that pulsarbat cannot repair (astropy's
+                        # Quantity.__eq__/__ne__ never dispatch to the signal): listed known finding
+                        chk.violation("quantity-eq-signal-unwrapped",
+                                      "Quantity %s Signal returns a plain array instead of a signal" % op, case)
     stats["quantity_eq_operator_unwrapped(astropy-defined, documented)"] = n
 
 
@@ -413,37 +423,41 @@ def run(chk):
     rnd = random.Random(chk.seed)
     t0 = time.time()
     stats = {}
-    # generation first (the replay needs it); the model-checking runs go on in the background
-    d1 = gen_cases(chk, "d1", "Gen_Ufunc_d1.cfg" if thorough else "Gen_Ufunc_d1q.cfg")
-    chains = gen_cases(chk, "chain", "Gen_Ufunc_chain.cfg")
-    pool = cf.ThreadPoolExecutor(4)
+    pool = cf.ThreadPoolExecutor(6)
+    # generation first (the replay needs it); model checking, the negative models and the
+    # repository's tests under the tracer run in the background while the replay goes on
+    g1 = pool.submit(gen_cases, chk, "d1", "Gen_Ufunc_d1.cfg" if thorough else "Gen_Ufunc_d1q.cfg", 8)
+    g2 = pool.submit(gen_cases, chk, "chain", "Gen_Ufunc_chain.cfg", 6)
     jobs = {}
     mcs = ["MC_Ufunc_full.cfg", "MC_Ufunc_chain_full.cfg"] if thorough else ["MC_Ufunc_quick.cfg", "MC_Ufunc_chain_quick.cfg"]
+    negs = sorted(NEGS) if thorough else sorted({sorted(NEGS)[chk.seed % len(NEGS)], "pinned_array"})
+    d1, chains = g1.result(), g2.result()
+    chains.sort(key=lambda c: json.dumps(c, sort_keys=True))     # TLC's output order depends on worker timing
     for cfg in mcs:
         jobs[cfg] = pool.submit(tlc.run, "MC_Ufunc", cfg, workers=6 if thorough else 4, timeout=2400)
-    negs = sorted(NEGS) if thorough else [sorted(NEGS)[chk.seed % len(NEGS)], "pinned_array"]
-    for v in sorted(set(negs)):
+    for v in negs:
         jobs["Neg_Ufunc_%s.cfg" % v] = pool.submit(tlc.run, "MC_Ufunc", "Neg_Ufunc_%s.cfg" % v, workers=2, timeout=600)
     groups, asarr, qeq = build_tables(d1)
+    repo_job = None
     try:
         import ufunc_trace
-        ufunc_trace.start(chk.seed, 1.0 if thorough else 0.5, 40000 if thorough else 6000)
+        repo_job = pool.submit(ufunc_trace.repo_test_events, chk)
+        ufunc_trace.start(chk.seed, 1.0 if thorough else 0.4, 40000 if thorough else 5000)
     except ImportError:
         pass
     stats["generated_d1_records"] = len(d1)
     stats["generated_chains"] = len(chains)
-    budget = 540 if thorough else 62
-    end = t0 + budget
-    now = time.time()
-    share = max(5.0, end - now)
+    # sizes are counts (deterministic for a seed); the deadlines only guard against an overloaded machine
+    end = t0 + (800 if thorough else 130)
     asarray_sweep(chk, asarr, rnd, stats, thorough)
     qty_eq_sweep(chk, qeq, rnd, stats, 6 if thorough else 2)
-    ufunc_sweep(chk, groups, rnd, 99 if thorough else 2, stats, time.time() + share * (0.45 if thorough else 0.42),
-                ("np", "dask"), 1.0 if thorough else 0.15)
-    arrangement_sweep(chk, groups, rnd, 10 ** 9 if thorough else 4000, stats, time.time() + share * (0.35 if thorough else 0.3))
-    chain_sweep(chk, chains, rnd, 6000 if thorough else 700, stats, end)
-    trace_part(chk, rnd, stats, thorough)
+    ufunc_sweep(chk, groups, rnd, 99 if thorough else 2, stats, t0 + (420 if thorough else 75),
+                ("np", "dask"), 1.0 if thorough else 0.12)
+    arrangement_sweep(chk, groups, rnd, 10 ** 9 if thorough else 2200, stats, t0 + (680 if thorough else 100))
+    chain_sweep(chk, chains, rnd, 5000 if thorough else 450, stats, end)
+    trace_part(chk, rnd, stats, thorough, repo_job)
     stats["ufuncs_used"] = len(stats.get("ufuncs_used", ()))
+    stats["result_dtype_kinds_seen"] = sorted(stats.get("result_dtype_kinds_seen", ()))
     # collect the model-checking results
     allok = True
     for name, fut in jobs.items():
@@ -468,18 +482,18 @@ def run(chk):
     chk.assumptions += [
         "TLC explores spec/Ufunc.tla exhaustively only within the stated constants (<= 4 operands, chains of 3)",
         "Quantity.__array_ufunc__ and dask Array.__array_ufunc__ return NotImplemented when a Signal is among the "
-        "operands (astropy 8 / dask 2026.8 behaviour, confirmed by every replayed mixed arrangement)",
+        "operands (astropy 8 / dask 2026.8 behaviour, confirmed by every replayed mixed arrangement and traced event)",
         "the value of App(u, k, operands) is NumPy's own ufunc on the raw arrays (NumPy is the oracle for values)",
         "naming of dtypes (ufunc_replay.dk_of) and construction of operands (ufunc_replay.build_world)"]
 
 
-def trace_part(chk, rnd, stats, thorough):
+def trace_part(chk, rnd, stats, thorough, repo_job):
     try:
         import ufunc_trace
     except ImportError:
         stats["trace"] = "not built"
         return
-    ufunc_trace.run(chk, rnd, stats, thorough)
+    ufunc_trace.run(chk, rnd, stats, thorough, repo_job)
 
 
 # ------------------------------------------------------------------ replay of a stored violation
